@@ -490,6 +490,137 @@ fn upkeep_part(ctx: &Ctx, res: &mut PartResult, depth: usize) {
     res.sample(json!({"sequence": ["record", "wait", "record", "scrape"], "expected": "count 2, sum 3"}));
 }
 
+// ------------------------------------------------------------------ IPv6 listener, IPv6 peer (::1)
+const ENTRIES6: [&str; 8] = ["::1", "::1/128", "::/64", "::/8", "fe80::/10", "2001:db8::/32", "127.0.0.1", "0.0.0.0/8"];
+
+/// independent CIDR arithmetic for an IPv6 peer; an IPv4 network never contains an IPv6 peer
+fn in_net6(entry: &str, peer: std::net::Ipv6Addr) -> bool {
+    let (addr, bits) = match entry.split_once('/') {
+        Some((a, b)) => (a, Some(b.parse::<u32>().unwrap())),
+        None => (entry, None),
+    };
+    let net: std::net::Ipv6Addr = match addr.parse() {
+        Ok(a) => a,
+        Err(_) => return false,
+    };
+    let bits = bits.unwrap_or(128);
+    let (n, p) = (u128::from(net), u128::from(peer));
+    let mask = if bits == 0 { 0 } else { u128::MAX << (128 - bits) };
+    (n & mask) == (p & mask)
+}
+
+fn get6(dst: SocketAddr, path: &str, timeout: Duration) -> Result<Resp, String> {
+    let mut s = TcpStream::connect_timeout(&dst, timeout).map_err(|e| format!("connect: {}", e))?;
+    s.set_read_timeout(Some(timeout)).unwrap();
+    s.write_all(format!("GET {} HTTP/1.1\r\nHost: verif\r\nConnection: close\r\n\r\n", path).as_bytes()).map_err(|e| format!("write: {}", e))?;
+    let mut buf = Vec::new();
+    let mut tmp = [0u8; 8192];
+    loop {
+        match s.read(&mut tmp) {
+            Ok(0) => break,
+            Ok(n) => buf.extend_from_slice(&tmp[..n]),
+            Err(e) => return Err(format!("read: {} after {} bytes", e, buf.len())),
+        }
+    }
+    let txt = String::from_utf8_lossy(&buf).to_string();
+    let (head, body) = txt.split_once("\r\n\r\n").ok_or_else(|| format!("no header end in {:?}", txt))?;
+    let status: u16 = head.split(' ').nth(1).and_then(|x| x.parse().ok()).ok_or_else(|| format!("bad status line in {:?}", head))?;
+    Ok(Resp { status, body: body.to_string() })
+}
+
+/// Allowlists (none, and all subsets of size 1-2 of IPv6 and IPv4 entries) against an exporter listening on [::1],
+/// scraped from ::1: served exactly when an IPv6 entry contains ::1; IPv4 entries never admit an IPv6 peer.
+fn ipv6_part(ctx: &Ctx, res: &mut PartResult) {
+    res.engine = "E4 allowlists x paths against the real HTTP listener on the IPv6 loopback".into();
+    let mut states = vseq::States::new();
+    if std::net::TcpListener::bind("[::1]:0").is_err() {
+        res.bound = json!({"skipped": "no IPv6 loopback in this environment"});
+        res.executions = 1;
+        res.states = 1;
+        res.distinct_outcomes = 1;
+        return;
+    }
+    let mut lists: Vec<Option<Vec<&'static str>>> = vec![None];
+    for i in 0..ENTRIES6.len() {
+        lists.push(Some(vec![ENTRIES6[i]]));
+        for j in i + 1..ENTRIES6.len() {
+            lists.push(Some(vec![ENTRIES6[i], ENTRIES6[j]]));
+        }
+    }
+    let peer = std::net::Ipv6Addr::LOCALHOST;
+    for allow in lists {
+        if ctx.over_budget() {
+            res.cap_hit = Some("budget (cpu time of the part)".into());
+            res.exhaustive = false;
+            break;
+        }
+        let replay = json!({"allow6": allow});
+        let port = {
+            let l = std::net::TcpListener::bind("[::1]:0").unwrap();
+            l.local_addr().unwrap().port()
+        };
+        let addr: SocketAddr = format!("[::1]:{}", port).parse().unwrap();
+        let mut bo = Some(PrometheusBuilder::new().with_http_listener(addr));
+        let mut bad_entry = None;
+        for e in allow.iter().flatten() {
+            match bo.take().unwrap().add_allowed_address(e) {
+                Ok(b) => bo = Some(b),
+                Err(err) => {
+                    bad_entry = Some(format!("add_allowed_address({:?}) failed: {}", e, err));
+                    break;
+                }
+            }
+        }
+        if let Some(m) = bad_entry {
+            res.executions += 1;
+            res.violation("documented-allowlist-entry-rejected", m, replay);
+            continue;
+        }
+        let b = bo.unwrap();
+        let rt = tokio::runtime::Builder::new_multi_thread().worker_threads(2).enable_all().build().unwrap();
+        let (rec, fut) = match rt.block_on(async { b.build() }) {
+            Ok(x) => x,
+            Err(e) => {
+                res.executions += 1;
+                res.violation("exporter-failed-to-start", format!("allowlist {:?} on [::1]: {}", allow, e), replay);
+                continue;
+            }
+        };
+        rt.spawn(fut);
+        rec.register_counter(&Key::from_parts("scrape_c", vec![Label::new("l", "v")]), &META).increment(5);
+        let inside = allow.as_ref().map(|l| l.iter().any(|e| in_net6(e, peer))).unwrap_or(true);
+        for path in PATHS {
+            res.executions += 1;
+            res.transitions += 1;
+            let r = get6(addr, path, Duration::from_secs(3)).or_else(|_| get6(addr, path, Duration::from_secs(30)));
+            let verdict: Result<&str, (String, String)> = match &r {
+                Err(e) => Err(("client-not-served".into(), format!("no response: {}", e))),
+                Ok(r) if !inside => {
+                    if r.status != 403 || !r.body.is_empty() {
+                        Err((if r.body.contains("scrape_") { "metrics-leaked-to-peer-outside-allowlist" } else { "peer-outside-allowlist-not-refused" }.into(), format!("status {} body {:?}", r.status, r.body.chars().take(120).collect::<String>())))
+                    } else {
+                        Ok("403")
+                    }
+                }
+                Ok(r) if r.status != 200 => Err(("peer-inside-allowlist-refused".into(), format!("status {} for a peer inside a listed network", r.status))),
+                Ok(r) if path == "/health" => if r.body == "OK" { Ok("health") } else { Err(("health-endpoint-wrong".into(), format!("/health body {:?}", r.body))) },
+                Ok(r) => if r.body.contains("scrape_c{l=\"v\"} 5") && promtext::parse(&r.body).is_ok() { Ok("200") } else { Err(("scrape-body-is-not-the-current-rendering".into(), format!("body {:?}", r.body))) },
+            };
+            match verdict {
+                Ok(o) => {
+                    states.add(&(format!("{:?}", allow), o));
+                }
+                Err((sig, msg)) => res.violation(&sig, format!("listener [::1], allowlist {:?}, peer ::1, GET {}: {}", allow, path, msg), replay.clone()),
+            }
+        }
+        drop(rt);
+    }
+    res.states = states.len();
+    res.distinct_outcomes = states.len();
+    res.bound = json!({"entries": ENTRIES6, "subsets_up_to": 2, "peer": "::1", "paths": PATHS});
+    res.sample(json!({"allowlist": ["127.0.0.1", "0.0.0.0/8"], "peer": "::1", "expected": "403, empty body"}));
+}
+
 fn parts(ctx: &Ctx) -> Vec<PartSpec> {
     let b = if ctx.quick() { 50.0 } else { 1800.0 };
     let n = allowlists().len();
@@ -503,13 +634,16 @@ fn parts(ctx: &Ctx) -> Vec<PartSpec> {
     v.push(PartSpec::new("disturbances", json!({"dist": true})).budget(b * 2.0));
     let d = if ctx.quick() { 3 } else { 5 };
     v.push(PartSpec::new(&format!("upkeep-task-d{}", d), json!({"upkeep": d})).budget(b));
+    v.push(PartSpec::new("ipv6-loopback", json!({"ipv6": true})).budget(b));
     v
 }
 
 fn run(ctx: &Ctx, spec: &PartSpec) -> PartResult {
     let mut res = PartResult::new(&spec.name, "");
     vseq::quiet_panics();
-    if let Some(d) = spec.arg["upkeep"].as_u64() {
+    if spec.arg["ipv6"].as_bool() == Some(true) {
+        ipv6_part(ctx, &mut res);
+    } else if let Some(d) = spec.arg["upkeep"].as_u64() {
         upkeep_part(ctx, &mut res, d as usize);
     } else if spec.arg["dist"].as_bool() == Some(true) {
         disturbance_part(ctx, &mut res);
@@ -528,7 +662,7 @@ fn main() {
     driver::main(CheckDef {
         prop: "C18",
         level: "fault_enumeration",
-        rule: "allowlists = none and all subsets of size 1-2 of {127.0.0.1 (plain address), 127.0.0.2/32, 127.0.0.0/30, 127.0.1.0/24, 10.0.0.0/8, ::1/128} x peers bound to {127.0.0.1,.2,.3,.4, 127.0.1.0, 127.0.1.255, 127.0.2.0, 127.1.1.1} x paths {/, /metrics, /health, /healthz}, one request each against a fresh real exporter (builder.build() on a tokio runtime); oracle: independent CIDR arithmetic; inside => 200 and the body parses (strict parser) to exactly the recorded state, /health => OK; outside => 403 with an empty body; plus all disturbance sequences of length <= 2 over {garbage bytes, half a request then idle, connect + RST, 8 concurrent scrapers, 4 refused scrapes} each followed by probes that must be served; plus all sequences (depth <= 3 quick / 5 thorough) over {record, scrape, wait for the exporter's periodic upkeep task (15 ms period)}: every scrape reports exactly the samples recorded so far; distinct_nontrivial = distinct (allowlist, peer, outcome) / (sequence, outcome) cases",
+        rule: "allowlists = none and all subsets of size 1-2 of {127.0.0.1 (plain address), 127.0.0.2/32, 127.0.0.0/30, 127.0.1.0/24, 10.0.0.0/8, ::1/128} x peers bound to {127.0.0.1,.2,.3,.4, 127.0.1.0, 127.0.1.255, 127.0.2.0, 127.1.1.1} x paths {/, /metrics, /health, /healthz}, one request each against a fresh real exporter (builder.build() on a tokio runtime); oracle: independent CIDR arithmetic; inside => 200 and the body parses (strict parser) to exactly the recorded state, /health => OK; outside => 403 with an empty body; plus all disturbance sequences of length <= 2 over {garbage bytes, half a request then idle, connect + RST, 8 concurrent scrapers, 4 refused scrapes} each followed by probes that must be served; plus an exporter listening on [::1] scraped from ::1 under no allowlist and all subsets of size 1-2 of {::1, ::1/128, ::/64, ::/8, fe80::/10, 2001:db8::/32, 127.0.0.1, 0.0.0.0/8} (an IPv4 network never admits an IPv6 peer); plus all sequences (depth <= 3 quick / 5 thorough) over {record, scrape, wait for the exporter's periodic upkeep task (15 ms period)}: every scrape reports exactly the samples recorded so far; distinct_nontrivial = distinct (allowlist, peer, outcome) / (sequence, outcome) cases",
         assumptions: &["tokio / hyper task scheduling runs free: request histories are enumerated, not the server's internal interleavings", "a response is awaited 3 s and then once more for 30 s before 'not served' is reported"],
         parts,
         run,
